@@ -1330,7 +1330,8 @@ class RoundFunction(Function):
         self.number = number
     def __call__(self, kind, data, pos, namespaces, variables):
         number = self.number(kind, data, pos, namespaces, variables)
-        return _integral(round, as_float(number))
+        # the closest integer; of two equally close ones the greater
+        return _integral(lambda x: floor(x + 0.5), as_float(number))
     def __repr__(self):
         return 'round(%r)' % self.number
 
